@@ -73,6 +73,11 @@ def clause(text, env, old_env):
 
 def run(req):
     mod = importlib.import_module(f"contracts.{req['group']}_native")
+    if req.get('finding'):
+        # a recorded finding that is a composition of functions: the group's native module replays it
+        still, observed = getattr(mod, req['finding'])(req['inputs'])
+        return {'status': 'violated' if still else 'holds', 'violated': ['finding'] if still else [],
+                'observed': str(observed)[:500], 'exception': None, 'clause_errors': {}}
     try:
         case = mod.build(req['key'], req.get('variant', ''), req['inputs'])
     except Exception as err:
